@@ -1248,18 +1248,21 @@ class Unit:
     @lru_cache(maxsize=None)
     def as_ratio(self) -> Tuple["Unit", "Unit"]:
         """Returns this unit, split into a numerator and denominator"""
-        numerator, denominator = self.dimension.as_ratio()
+        numerator = {u: e for u, e in self.factors.items() if e >= 0} or {One: 1}
+        denominator = {u: -e for u, e in self.factors.items() if e < 0} or {One: 1}
+
+        # the dimension of each part is the product of its own factors' dimensions,
+        # which is not the same as the positive and negative parts of this unit's
+        # dimension when a factor's dimension has exponents of mixed signs
+        numerator_dimension = denominator_dimension = Number
+        for unit, exponent in numerator.items():
+            numerator_dimension *= unit.dimension**exponent
+        for unit, exponent in denominator.items():
+            denominator_dimension *= unit.dimension**exponent
+
         return (
-            Unit(
-                self.prefix,
-                {u: e for u, e in self.factors.items() if e >= 0} or {One: 1},
-                numerator,
-            ),
-            Unit(
-                IdentityPrefix,
-                {u: -e for u, e in self.factors.items() if e < 0} or {One: 1},
-                denominator,
-            ),
+            Unit(self.prefix, numerator, numerator_dimension),
+            Unit(IdentityPrefix, denominator, denominator_dimension),
         )
 
 
